@@ -18,6 +18,20 @@ def bg_class(bg):
     return None
 
 
+def _gutter_kind(gutter_runs):
+    has = {}
+    for t, c in gutter_runs:
+        if c in ("ln_minus", "ln_zero", "ln_plus"):
+            has[c] = has.get(c, False) or any(ch.isdigit() for ch in t)
+    if has.get("ln_zero"):
+        return "zero"
+    if has.get("ln_minus") and not has.get("ln_plus"):
+        return "minus"
+    if has.get("ln_plus") and not has.get("ln_minus"):
+        return "plus"
+    return None
+
+
 def observe_row(row):
     """Classify one decoded row of unified-view output.
 
@@ -67,6 +81,11 @@ def observe_row(row):
         info.kind = "deco"
     elif info.text == "" and info.gutter == "":
         info.kind = "blank"
+    elif info.gutter_runs and not (classes - {None}) and info.text.strip(" ") == "" and \
+            _gutter_kind(info.gutter_runs):
+        # an empty hunk line under line numbers with nothing padding or filling the row: only the
+        # number fields tell what it is
+        info.kind = _gutter_kind(info.gutter_runs)
     else:
         info.kind = "other"
     return info
